@@ -1592,3 +1592,79 @@ Proof.
     + rewrite Hres. cbn [app fst]. rewrite rev_involutive.
       apply (chain_inv perm mid s cur0 i n Hinv); try assumption. rewrite <- Ecur. exact Hcs.
 Qed.
+
+(* ---- RemoveAll of a file or of an empty directory -------------------------------------------------------------- *)
+Definition ra_leaf (s : ofs) (path : str) : Prop :=
+  match ofind s (oabs s path) with Some (_, n) => on_ch n = [] | None => True end.
+
+Lemma step_remove_all_leaf s path : orefa_inv s -> ra_leaf s path -> orefa_inv (fst (o_remove_all s path)).
+Proof.
+  intros Hinv Hleaf. unfold o_remove_all. destruct path as [|x path']; [exact Hinv|]. set (path := x :: path') in *.
+  unfold ra_leaf in Hleaf.
+  destruct (oabs_shape s path Hinv) as (cs & Hcs & Eabs). rewrite Eabs in *. rewrite (inv_os _ Hinv).
+  destruct (abs_path_split cs Hcs) as [(-> & E1 & E2)|(ps & c & -> & Hps & Hc & E1 & E2)]; rewrite E2.
+  - destruct (ofind_root s (inv_h _ Hinv)) as (n & H1 & H2 & Hd). rewrite E1, H1, H2. rewrite Nat.eqb_refl. exact Hinv.
+  - rewrite E1 in *. destruct (ofind s (rpath (ps ++ [c]))) as [[ci cn]|] eqn:Ec; [|exact Hinv].
+    destruct (ofind s (rpath ps)) as [[pi pn]|] eqn:Ep; [|exact Hinv].
+    destruct (Nat.eqb ci pi); [exact Hinv|].
+    apply ofind_some in Ec. destruct Ec as [Hci Hcn]. apply ofind_some in Ep. destruct Ep as [Hpi Hpn].
+    cbn [o_rm_all snd fst]. rewrite Hcn, Hleaf.
+    assert (E : (if on_dir cn then fold_left (fun acc (e : str * nat) => o_rm_all (length (o_heap s)) Linux acc (rpath (ps ++ [c]) ++ [sepc Linux] ++ fst e) (snd e)) [] (o_index s, o_heap s) else (o_index s, o_heap s)) = (o_index s, o_heap s))
+      by (destruct (on_dir cn); reflexivity).
+    rewrite E. cbn [fst snd]. apply inv_with; [exact Hinv|].
+    apply (hinv_unlink _ _ ps c pi pn ci cn); try assumption. apply (inv_h _ Hinv).
+Qed.
+
+(* ---- open files ------------------------------------------------------------------------------------------------ *)
+Ltac prologue Hinv :=
+  unfold o_prologue;
+  match goal with |- context [hd_name ?f] => destruct (hd_name f); [exact Hinv|] end;
+  match goal with |- context [hd_node ?f] => destruct (hd_node f) as [c|]; [|exact Hinv] end;
+  match goal with |- context [oget ?h ?c0] => destruct (oget h c0) as [nd|] eqn:End; [|exact Hinv] end.
+
+Lemma step_of_write s f b : orefa_inv s -> orefa_inv (fst (fst (of_write s f b))).
+Proof.
+  intros Hinv. unfold of_write. prologue Hinv.
+  destruct (on_dir nd || negb (has (hd_mode f) OpenWrite)); [exact Hinv|]. cbn [fst]. apply inv_upd_data; assumption.
+Qed.
+
+Lemma step_of_write_at s f b off : orefa_inv s -> orefa_inv (fst (of_write_at s f b off)).
+Proof.
+  intros Hinv. unfold of_write_at. destruct (Z.ltb off 0); [exact Hinv|]. prologue Hinv.
+  destruct (on_dir nd || negb (has (hd_mode f) OpenWrite)); [exact Hinv|]. cbn [fst]. apply inv_upd_data; assumption.
+Qed.
+
+Lemma step_of_truncate s f size : orefa_inv s -> orefa_inv (fst (of_truncate s f size)).
+Proof.
+  intros Hinv. unfold of_truncate. prologue Hinv.
+  destruct (on_dir nd || negb (has (hd_mode f) OpenWrite)); [exact Hinv|]. destruct (Z.ltb size 0); [exact Hinv|].
+  cbn [fst]. apply inv_upd_data; assumption.
+Qed.
+
+Lemma step_of_chmod s f mode : orefa_inv s -> orefa_inv (fst (of_chmod s f mode)).
+Proof. intros Hinv. unfold of_chmod. prologue Hinv. cbn [fst]. apply inv_upd_mode; assumption. Qed.
+
+Lemma step_of_chown s f uid gid : orefa_inv s -> orefa_inv (fst (of_chown s f uid gid)).
+Proof.
+  intros Hinv. unfold of_chown. prologue Hinv. destruct (owin s); [exact Hinv|]. cbn [fst]. apply inv_upd_owner; assumption.
+Qed.
+
+Lemma step_of_chdir s f : orefa_inv s -> orefa_inv (fst (of_chdir s f)).
+Proof.
+  intros Hinv. unfold of_chdir. prologue Hinv. destruct (on_dir nd); [|exact Hinv]. cbn [fst]. apply inv_with_cwd. exact Hinv.
+Qed.
+
+Lemma step_write_file s name data perm : orefa_inv s -> orefa_inv (fst (o_write_file s name data perm)).
+Proof.
+  intros Hinv. unfold o_write_file.
+  pose proof (step_open_file s name (O_WRONLY + O_CREATE + O_TRUNC) perm Hinv) as H1.
+  destruct (o_open_file s name (O_WRONLY + O_CREATE + O_TRUNC) perm) as [s1 [r|f]]; [exact Hinv|]. cbn [fst] in H1.
+  pose proof (step_of_write s1 f data H1) as H2.
+  destruct (of_write s1 f data) as [[s2 f2] r]. cbn [fst] in H2. destruct r; exact H2.
+Qed.
+
+Lemma inv_with_user s u : orefa_inv s -> orefa_inv (o_with_user s u).
+Proof. intros Hinv. constructor; [apply (inv_os _ Hinv)|apply (inv_cwd _ Hinv)|apply (inv_h _ Hinv)]. Qed.
+
+Lemma inv_with_umask s m : orefa_inv s -> orefa_inv (o_with_umask s m).
+Proof. intros Hinv. constructor; [apply (inv_os _ Hinv)|apply (inv_cwd _ Hinv)|apply (inv_h _ Hinv)]. Qed.
